@@ -42,7 +42,10 @@ RULE = ("with-items of (a) hand-written programs covering every documented targe
         "(f) 24 rebinding scenarios: 2-4 instances of one function (one code object) with a target-less / unsupported-target "
         "with, started with the manager in local `mgr` / in no local / in `other`, stepped round-robin through 3 suspensions "
         "that rebind the locals and inspected as the exiting entry from inside __exit__/__aexit__: varname must be None or a "
-        "local bound to the manager at that moment. One case per BEFORE_WITH site (finally bodies are duplicated by the compiler). distinct = distinct "
+        "local bound to the manager at that moment, (g) exiting entry: nested programs (2-4 deep, mixed targets, sync/async) left by "
+        "falling off / return / break / continue; every exit inspected from inside __exit__/__aexit__ (running frame) and, for async "
+        "managers, with the coroutine suspended inside __aexit__: contexts still entered + exactly one exiting entry carrying its OWN "
+        "item's start_line / varname / is_async; on all four interpreters. One case per BEFORE_WITH site (finally bodies are duplicated by the compiler). distinct = distinct "
         "(program, site) descriptors; non-trivial = the item has a target other than a plain name")
 CONFIG = dict(
     coq=["C08"], level="proof",
@@ -213,7 +216,7 @@ def make_inputs(tier, seed):
     for n in range(nprog):
         progs.append(G.gen_program(rng, tdepth=2 if n % 4 else 3))
     # CPython 3.11 / 3.10 / 3.9 run the same programs concurrently with the 3.12 cases
-    other_specs = progs if tier == "quick" else progs[:900]
+    other_specs = (progs if tier == "quick" else progs[:900]) + exit_specs(tier, seed)
     children = {}
     for name, py, shims in OTHER_PYTHONS:
         if os.path.exists(py):
@@ -449,6 +452,16 @@ def run_other(py, shims, specs, timeout=1500, sites=False):
     return json.loads(p.stdout)
 
 
+def exit_specs(tier, seed):
+    """programs for the exiting-entry leg (each carries its exit route)"""
+    rng = random.Random(seed * 15485863 + 9)
+    out = [dict(s, route=G.ROUTES[n % 4], no_sites=True) for n, s in enumerate(specials())
+           if not s.get("static_only") and not s.get("bigconsts")]
+    for n in range(120 if tier == "quick" else 1200):
+        out.append(G.gen_exit_program(rng, n))
+    return out
+
+
 def extra_legs(tier, seed):
     viol = []
     info = {}
@@ -470,6 +483,20 @@ def extra_legs(tier, seed):
         for p in probs[:2]:
             viol.append({"what": "runtime leg: " + p, "input": {"spec": spec, "source": G.build_source(spec)}})
     info["runtime_3.12"] = dict(programs=len(specs), contexts=nctx, **stats)
+    # exiting entry: every with statement left normally (fall-off / return / break / continue), inspected from inside
+    # __exit__/__aexit__ and with the coroutine suspended inside __aexit__
+    xs = exit_specs(tier, seed)
+    nx = 0
+    for spec in xs:
+        try:
+            k, probs = G.exit_check(spec)
+        except BaseException as ex:
+            k, probs = 0, ["exit leg raised %r" % (ex,)]
+        n_eval += 1
+        nx += k
+        for p in probs[:2]:
+            viol.append({"what": "exiting entry: " + p, "input": {"spec": spec, "source": G.build_source(spec)}})
+    info["exiting_3.12"] = dict(programs=len(xs), inspections=nx)
     # runtime + static legs under the other interpreters: results of the children started in make_inputs
     for name, py, shims in OTHER_PYTHONS:
         r = _SUBRES.get(name)
@@ -483,7 +510,7 @@ def extra_legs(tier, seed):
             viol.append({"what": "leg under CPython %s did not run: %s" % (name, r["error"]), "input": None})
             continue
         info["python_" + name]["sites"] = sum(len(v) for v in r.get("sites", {}).values())
-        n_eval += r.get("programs", 0)
+        n_eval += r.get("programs", 0) + r.get("exit_programs", 0)
         for p in r.get("problems", [])[:3]:
             viol.append({"what": "CPython %s: %s" % (name, p["what"]), "input": p["input"]})
     return dict(evaluations=n_eval, violations=viol, info=info, known_reproduced=[])
